@@ -34,7 +34,7 @@ PROPS = {
     'C09': dict(spec_mods=['SsoSpec.C09'], engines=['authflow']),
     'C10': dict(spec_mods=['SsoSpec.C10'], engines=['authflow']),
     'C11': dict(spec_mods=['SsoSpec.C11'], engines=['validators', 'proxyflow']),
-    'C19': dict(spec_mods=['SsoSpec.C19'], engines=['authflow', 'proxyflow']),
+    'C19': dict(spec_mods=['SsoSpec.C19'], engines=['authflow', 'proxyflow', 'sfwrap']),
     'C20': dict(spec_mods=['SsoSpec.C20'], engines=['htmlesc', 'authflow', 'proxyflow']),
     'C18': dict(spec_mods=['SsoSpec.C18'], engines=['proxyflow', 'authflow']),
     'C12': dict(spec_mods=['SsoSpec.C12'], engines=['forward']),
@@ -60,7 +60,7 @@ AF_FLOOR = ['authflow:signin/code', 'authflow:signin/page', 'authflow:signin/err
             'authflow:outside-service']
 FW_FLOOR = ['forward:authenticated', 'forward:skip-auth', 'forward:connection-nominates-tracked', 'forward:session-cookie-present', 'forward:rsa/verifies', 'forward:rsa/mismatch', 'forward:hmac/on']
 FLOORS = {
-    'C03': FW_FLOOR, 'C12': FW_FLOOR, 'C07': AF_FLOOR, 'C08': AF_FLOOR, 'C09': AF_FLOOR, 'C10': AF_FLOOR, 'C19': AF_FLOOR + PF_FLOOR, 'C20': ['htmlesc:escaped', 'htmlesc:verbatim', 'authflow:signin/page', 'authflow:signout/page', 'authflow:signout/revoke-failed', 'authflow:gate/SignIn/400', 'proxyflow:cb/errorParam'],
+    'C03': FW_FLOOR, 'C12': FW_FLOOR, 'C07': AF_FLOOR, 'C08': AF_FLOOR, 'C09': AF_FLOOR, 'C10': AF_FLOOR, 'C19': AF_FLOOR + PF_FLOOR + ['sfwrap:auth/revoke/leader', 'sfwrap:auth/revoke/follower'], 'C20': ['htmlesc:escaped', 'htmlesc:verbatim', 'authflow:signin/page', 'authflow:signout/page', 'authflow:signout/revoke-failed', 'authflow:gate/SignIn/400', 'proxyflow:cb/errorParam'],
     'C01': PF_FLOOR, 'C04': PF_FLOOR, 'C05': PF_FLOOR, 'C13': PF_FLOOR, 'C06': PF_FLOOR, 'C18': PF_FLOOR,
     'C14': ['config:loaded', 'config:loaded/skip-regex', 'config:error/missingService', 'config:error/missingFrom', 'config:error/missingTo',
             'config:error/badFromUrl', 'config:error/badFromRegex', 'config:error/unknownType', 'config:error/badSkipRegex',
